@@ -96,6 +96,14 @@ func runC19(rc *RunCtx) {
 		sc.Chunks[len(sc.Chunks)-1].N += len(extra)
 	}
 	sc.Hooks = true
+	if flavour == 0 && sc.Kind != KSerial && sc.Then == nil && !sc.LongSilence && !t.Has("cutmode") && totalGap(sc.Chunks) <= 60*time.Millisecond && t.Chance(1, 8) {
+		// a non-blocking connection: a read that finds nothing returns (0, nil) - a transport read like any other, and the
+		// after-read hook is owed a call for each (wave 15)
+		sc.ZeroNilReads = true
+		for i := range sc.Chunks {
+			sc.Chunks[i].Err = nil
+		}
+	}
 	if flavour == 0 && sc.Then == nil && !sc.LongSilence && totalGap(sc.Chunks) == 0 && len(sc.Chunks) <= 20 && t.Chance(1, 6) {
 		// hooks that take their time (a logger writing to a slow sink): 0.6-2 ms per call, far less in total than the
 		// read timeout - the reply is all there, the call must still bring it
